@@ -115,6 +115,8 @@ Check head_to_bigint_refuted. Check head_to_int_nan_refuted. Check head_sqrt_big
 Check head_powf_bigint_refuted. Check head_pow_int_refuted. Check head_index_bigint_refuted.
 Check head_parse_int_0x_refuted. Check head_delete_all_refuted. Check head_to_float_bigint_refuted.
 Check head_parse_radix_0x_refuted.
+(* a sign between the 0x / 0b prefix and the digits is no number (fixes/c14-sign-after-prefix.diff); the arm as it was read one *)
+Check sign_after_prefix.
 Check repaired_on_witnesses.
 
 (* ---- non-vacuity *)
